@@ -30,6 +30,18 @@ CHECKS = {
             "(callbacks, header_contents, rustfmt path) are outside the claim; quick tier runs a VERIF_SEED-rotated quarter of the "
             "boolean pairs.",
             "6/C13"),
+    "C18": ("model_checking",
+            "explicit-state exhaustive enumeration: every item sequence up to a length bound (plus all short-period long "
+            "sequences) is pushed through the real post-processing passes via hook H4; invariants + idempotence + reference model "
+            "evaluated on every result",
+            "Pass-level model checking of the real merge_extern_blocks / sort_semantically code: all sequences of length<=4 "
+            "(quick) / <=5 (thorough) over an 18-atom item alphabet x unsafe-extern on/off and all periodic sequences (period<=2|3) "
+            "of length 24/48 are executed for the four pass settings; per module the multiset of items, each foreign item's "
+            "(ABI, attributes, unsafety), same-kind relative order and idempotence are checked, and the result is compared with "
+            "a reference model. The whole pipeline is additionally run on repository headers and generated programs.",
+            "Item alphabet is finite (18 atoms, modules nested two deep); streams of mixed unsafety are not generated because "
+            "bindgen cannot emit them; sort rank order itself is not part of the property (only grouping/stability).",
+            "6/C18"),
 }
 
 NOT_YET = "check not built yet in this round (see DESIGN.md section 10a for the plan)"
